@@ -10,9 +10,24 @@ SCRATCH_PREFIX = "laze-verif-e2e-"
 
 def clean_env(tmp, threads=None):
     env = {k: v for k, v in os.environ.items() if not k.startswith("LAZE_")}
-    env.update(GIT_CACHE_DIR=os.path.join(tmp, "gitcache"), HOME=tmp, RUST_BACKTRACE="0")
+    env.update(GIT_CACHE_DIR=os.path.join(tmp, "gitcache"), HOME=tmp, RUST_BACKTRACE="0",
+               LAZE_VERIF_EVENTS=os.path.join(tmp, "events.log"))
     if threads: env["RAYON_NUM_THREADS"] = str(threads)
     return env
+
+def take_events(tmp):
+    """the event lines the hooked binary appended during the last run (hook `event` in src/verif_oracle.rs):
+    a list of tuples, or None when the binary has no such hook. The checks read what happened from these
+    instead of from the wording of laze's messages."""
+    p = os.path.join(tmp, "events.log")
+    if not os.path.exists(p): return None
+    ev = [tuple(ln.split("\t")) for ln in open(p, encoding="utf-8", errors="replace").read().split("\n") if ln]
+    os.remove(p)
+    return ev
+
+def was_cache_hit(events, stdout):
+    if events is not None: return any(e[0] == "cache_hit" for e in events)
+    return "laze: reading cache took" in stdout
 
 def run_laze(laze, files, c, extra_args=None, keep=False, threads=None, info=True):
     """returns dict(rc, stdout, stderr, ninja(bytes or None), info(dict or None), root)"""
@@ -36,7 +51,7 @@ def run_laze(laze, files, c, extra_args=None, keep=False, threads=None, info=Tru
         if os.path.exists(ip):
             try: inf = json.load(open(ip))
             except Exception: inf = None
-        return dict(rc=rc, stdout=out, stderr=err, ninja=ninja, info=inf, root=root, argv=args[1:])
+        return dict(rc=rc, stdout=out, stderr=err, ninja=ninja, info=inf, root=root, argv=args[1:], events=take_events(tmp))
     finally:
         if not keep:
             shutil.rmtree(tmp, ignore_errors=True)
@@ -65,7 +80,12 @@ def parse_model(reply):
         mods, order = lst(), lst()
         tasks = {}
         for _ in range(num()):
-            n = s(); tasks[n] = t[i]; i += 1
+            n = s(); st = t[i]; i += 1
+            if st == "ok":
+                cmds = lst(); ex = lst()
+                tasks[n] = dict(status="ok", cmd=cmds, export=list(zip(ex[0::2], ex[1::2])))
+            else:
+                tasks[n] = dict(status=st, cmd=[], export=[])
         builds.append(dict(builder=builder, app=app, out=out, modules=mods, order=order, tasks=tasks))
     assert t[i] == "N"; i += 1
     nob = []
@@ -92,7 +112,11 @@ def parse_impl(r):
     if r["rc"] == "timeout" or (isinstance(r["rc"], int) and (r["rc"] < 0 or r["rc"] in (101, 134, 139))):
         out["crashed"] = True
     out["configuring"] = []
-    for ln in r["stdout"].splitlines():
+    if r.get("events") is not None:
+        for e in r["events"]:
+            if e[0] == "configuring" and len(e) >= 3: out["configuring"].append((e[1], e[2]))
+            elif e[0] == "nobuild" and len(e) >= 4: out["nobuilds"].append((e[1], e[2], e[3]))
+    for ln in ([] if r.get("events") is not None else r["stdout"].splitlines()):
         m = RE_CONFIGURING.match(ln)
         if m: out["configuring"].append((m.group(2), m.group(1))); continue
         m = RE_NOTALLOWED.match(ln)
@@ -187,6 +211,8 @@ FAKE_NINJA = """#!/bin/sh
 # fake ninja: log argv (one line per invocation, args separated by \\x1f), exit with the scripted code
 printf '%s' "$*" | tr ' ' '\037' >> "$LAZE_VERIF_NINJA_LOG"
 echo >> "$LAZE_VERIF_NINJA_LOG"
+# "kill": ninja dies from a signal (no exit code): a failed build like any other
+[ "$LAZE_VERIF_NINJA_RC" = kill ] && kill -KILL $$
 exit ${LAZE_VERIF_NINJA_RC:-0}
 """
 
@@ -223,8 +249,9 @@ def run_sequence(laze, files, steps, threads=None):
             argvs = []
             if os.path.exists(log):
                 argvs = [ln.split("\x1f") if ln else [] for ln in open(log).read().split("\n")[:-1]]
-            out.append(dict(rc=rc, stdout=so, stderr=se, ninja=ninja, ninja_argv=argvs, root=root,
-                            cache_hit=("laze: reading cache took" in so), argv=args[1:]))
+            ev = take_events(tmp)
+            out.append(dict(rc=rc, stdout=so, stderr=se, ninja=ninja, ninja_argv=argvs, root=root, events=ev,
+                            cache_hit=was_cache_hit(ev, so), argv=args[1:]))
         return out
     finally:
         shutil.rmtree(tmp, ignore_errors=True)
